@@ -63,7 +63,12 @@ func VerifC14Immutable() {
 		switch op {
 		case 0:
 			prof := []string{before.Services["k1"].Profiles[0], "*", "zz"}[vrtChoice("profile", 3)]
-			q, err = cur.WithProfiles([]string{prof})
+			if vrtChoice("ownProfilesAsArgument", 2) == 1 {
+				// the receiver's own list handed back as the argument: still no sharing
+				q, err = cur.WithProfiles(cur.Profiles)
+			} else {
+				q, err = cur.WithProfiles([]string{prof})
+			}
 		case 1:
 			names := [][]string{{"d1"}, {"k1"}, {}, {"d1", "d2"}, {"d2", "d1"}, {"d1", "k1"}}[vrtChoice("names", 6)]
 			q, err = cur.WithServicesEnabled(names...)
